@@ -19,6 +19,7 @@ const size_t MAX_WIT = 12;
 // mathematical-integer profile). Set at the start of every check; the harness is
 // single threaded per process.
 static unsigned g_bvw = 0;
+static bool g_bv_strict = false;
 
 struct Witness {
   std::map<std::string, mpz_class> i;
@@ -95,18 +96,45 @@ int eval_cst(const LinCst &c, const Witness &w) {
   if (!eval_exp(c.e, w, v))
     return -1;
   if (g_bvw) {
-    // judged only when no reading of the constraint (modular or mathematical, any
-    // evaluation order) can disagree: sum of |terms| and |constant| inside the signed range
-    mpz_class acc = abs(c.e.cst), lim;
-    for (auto &t : c.e.terms) {
-      auto it = w.i.find(t.first);
-      if (it == w.i.end())
-        return -1;
-      acc += abs(t.second * it->second);
-    }
+    // judged only when every sensible reading of the constraint agrees in this state
+    // (see bv_cst_unambiguous in machine.cpp): a bound / (dis)equality on one variable
+    // whose constant fits the signed range, or mathematical == modular truth value
+    mpz_class lim;
     mpz_ui_pow_ui(lim.get_mpz_t(), 2, g_bvw - 1);
-    if (acc >= lim)
-      return -1;
+    for (auto &t : c.e.terms)
+      if (!w.i.count(t.first))
+        return -1;
+    auto truth = [&](const mpz_class &x) {
+      switch (c.kind) {
+      case LinCst::LEQ:
+        return x <= 0;
+      case LinCst::LT:
+        return x < 0;
+      case LinCst::EQ:
+        return x == 0;
+      default:
+        return x != 0;
+      }
+    };
+    if (c.e.terms.size() == 1 && (c.e.terms[0].second == 1 || c.e.terms[0].second == -1)) {
+      mpz_class bound = -c.e.cst * c.e.terms[0].second;
+      if (bound < -lim || bound >= lim)
+        return -1;
+    } else if (!c.e.terms.empty()) {
+      // constants outside the signed range have no agreed meaning (crab reduces them)
+      if (abs(c.e.cst) >= lim)
+        return -1;
+      mpz_class acc = abs(c.e.cst);
+      for (auto &t : c.e.terms) {
+        if (abs(t.second) >= lim)
+          return -1;
+        acc += abs(t.second * w.i.at(t.first));
+      }
+      if (g_bv_strict && acc >= lim) // neutraliser of KF61
+        return -1;
+      if (truth(v) != truth(bv_wrap(v, g_bvw)))
+        return -1;
+    }
   }
   switch (c.kind) {
   case LinCst::LEQ:
@@ -1395,6 +1423,7 @@ Outcome check_hist(const Case &c, Stats &st, bool raw) {
     return out;
   }
   g_bvw = (di->caps & CAP_BV) ? (unsigned)c.pint("bv_width", 8) : 0;
+  g_bv_strict = c.pbool("bv_strict");
   GuardResult gr = guarded(5000000, [&]() {
     Ctx cx(g_bvw ? g_bvw : 32);
     cx.di = di;
@@ -1672,6 +1701,7 @@ Outcome check_c05b(const Case &c, Stats &st) {
   long strict = 0, L = 0;
   GuardResult gr = guarded(20000000, [&]() {
     g_bvw = (di->caps & CAP_BV) ? (unsigned)c.pint("bv_width", 8) : 0;
+  g_bv_strict = c.pbool("bv_strict");
     Ctx cx(g_bvw ? g_bvw : 32);
     cx.di = di;
     Interp in(cx, c, st, out);
@@ -1802,6 +1832,7 @@ Outcome check_c16(const Case &c, Stats &st) {
     hooks().unusual_enabled = false;
   GuardResult gr = guarded(10000000, [&]() {
     g_bvw = (di->caps & CAP_BV) ? (unsigned)c.pint("bv_width", 8) : 0;
+  g_bv_strict = c.pbool("bv_strict");
     Ctx cx(g_bvw ? g_bvw : 32);
     cx.di = di;
     int nregs = (int)c.hist.at("nregs").as_int(2);
